@@ -4,3 +4,6 @@ import "errors"
 
 // ErrUnexpectedPemType is returned for an unexpected pem type.
 var ErrUnexpectedPemType = errors.New("keypem: unexpected pem type")
+
+// ErrNoPemBlock is returned if the data does not contain a pem block.
+var ErrNoPemBlock = errors.New("keypem: no pem block found")
